@@ -173,7 +173,9 @@ Definition handle_known (code : N) (buf : list byte) (s : pstate) : outcome psta
     Ok (set_gecko s {| gk_bytes := buf; gk_actual := ps_split_actual s |})
   else if N.eqb code Event_GameStart then Err EInvalid
   else if N.eqb code Event_GameEnd then
-    e <- res_outcome (game_end buf) ;; Ok (set_end s e)
+    (* no FrameEnd events before v3.0: the last frame is still open *)
+    let s1 := if vlt v 3 0 then frame_close s else s in
+    e <- res_outcome (game_end buf) ;; Ok (set_end s1 e)
   else if N.eqb code Event_FrameStart then
     let s1 := if vlt v 3 0 then frame_close s else s in
     '(id, r) <- i32_at buf ;;
